@@ -190,6 +190,53 @@ ProlongFLv(F, G, T, UF, GU, GUold) ==
         fI |-> [k \in 1 .. F.M |-> VAdd(FI(F, UF[k]), VSum([m \in 1 .. G.M |-> VSc(T.Pc[k][m], dI[m])], F.n))],
         fE |-> [k \in 1 .. F.M |-> VAdd(FE(F, UF[k], k), VSum([m \in 1 .. G.M |-> VSc(T.Pc[k][m], dE[m])], F.n))]]
 
+\* ---- one multilevel iteration of one step (controller_nonMPI: IT_DOWN, IT_COARSE, IT_UP, IT_FINE) -------------------------
+\* nsw[l] = sweeps on level l (1 = finest); the coarsest level always sweeps once
+\* TLC passes operator arguments unevaluated and evaluates them again at every use; binding through a singleton set makes the
+\* value concrete once (without it the nested iterations below cost (number of uses)^(depth))
+BindIn(e, F(_)) == CHOOSE r \in {F(v) : v \in {e}} : TRUE
+RECURSIVE SweepN(_, _, _, _, _, _)
+SweepN(L, kind, u0, U, tau, n) ==
+    IF n = 0 THEN U ELSE BindIn(Sweep(L, kind, u0, U, tau), LAMBDA V : SweepN(L, kind, u0, V, tau, n - 1))
+\* two levels: restrict, coarse sweep, prolong the coarse correction, nsw[1] fine sweeps
+MLIter2(F, G, T, kind, nsw, u0, U) ==
+    BindIn(RestrictLv(F, G, T, u0, U, <<>>), LAMBDA R :
+    BindIn(Sweep(G, kind, R.u0, R.U, R.tau), LAMBDA GU :
+    BindIn(ProlongLv(F, G, T, U, GU, R.Uold), LAMBDA U1 :
+        SweepN(F, kind, u0, U1, <<>>, nsw[1]))))
+\* three levels: the middle level sweeps nsw[2] times on the way down (after the restriction from the fine level) AND nsw[2]
+\* times on the way up (after the prolongation from the coarsest level); its tau correction is the one inherited at restriction
+MLIter3(F, G, H, T1, T2, kind, nsw, u0, U) ==
+    BindIn(RestrictLv(F, G, T1, u0, U, <<>>), LAMBDA R1 :
+    BindIn(SweepN(G, kind, R1.u0, R1.U, R1.tau, nsw[2]), LAMBDA GU1 :
+    BindIn(RestrictLv(G, H, T2, R1.u0, GU1, R1.tau), LAMBDA R2 :
+    BindIn(Sweep(H, kind, R2.u0, R2.U, R2.tau), LAMBDA HU :
+    BindIn(ProlongLv(G, H, T2, GU1, HU, R2.Uold), LAMBDA GU2 :
+    BindIn(SweepN(G, kind, R1.u0, GU2, R1.tau, nsw[2]), LAMBDA GU3 :
+    BindIn(ProlongLv(F, G, T1, U, GU3, R1.Uold), LAMBDA U1 :
+        SweepN(F, kind, u0, U1, <<>>, nsw[1]))))))))
+RECURSIVE MLIterate(_, _, _, _, _, _, _)
+\* K iterations; lv = sequence of levels (2 or 3), tr = sequence of transfers
+MLIterate(lv, tr, kind, nsw, u0, U, K) ==
+    IF K = 0 THEN U
+    ELSE BindIn(IF Len(lv) = 2 THEN MLIter2(lv[1], lv[2], tr[1], kind, nsw, u0, U)
+                ELSE MLIter3(lv[1], lv[2], lv[3], tr[1], tr[2], kind, nsw, u0, U),
+                LAMBDA V : MLIterate(lv, tr, kind, nsw, u0, V, K - 1))
+MLDefined(lv, kind) == \A l \in 1 .. Len(lv) : SweepDefined(lv[l], kind)
+\* linearity in the iterate (the iteration is affine: one iteration matrix plus a source term) -- for linear right-hand sides
+\* (c = 0) the difference of two iterates is propagated independently of u0: this is what "equals the multigrid-in-time
+\* iteration matrix applied to the iterate" means for the transcription
+MLAffine(lv, tr, kind, nsw, u0, U, V) ==
+    LET n == lv[1].n  M == lv[1].M
+        D(X, Y) == [m \in 1 .. M |-> VSub(X[m], Y[m])]
+        Z == [m \in 1 .. M |-> Zero(n)]
+    IN BindIn(D(U, V), LAMBDA W :
+       BindIn(MLIterate(lv, tr, kind, nsw, u0, U, 1), LAMBDA A1 :
+       BindIn(MLIterate(lv, tr, kind, nsw, u0, V, 1), LAMBDA A2 :
+       BindIn(MLIterate(lv, tr, kind, nsw, Zero(n), W, 1), LAMBDA B1 :
+       BindIn(MLIterate(lv, tr, kind, nsw, Zero(n), Z, 1), LAMBDA B2 :
+           D(A1, A2) = D(B1, B2))))))
+
 \* ---- C10 ------------------------------------------------------------------------------
 \* hypotheses under which the FAS identities hold (they are what pySDC's own transfer matrices provide)
 RowsSumToOne(Rc, Mc, Mf) == \A k \in 1 .. Mc : Md(SumSeq([m \in 1 .. Mf |-> Rc[k][m]])) = 1
